@@ -541,6 +541,33 @@ func checkC19(replay string) {
 		{Lines: []string{"a", strings.Repeat("y", 200000), "b"}, Line: 2, Col: 200000},
 		{Lines: []string{"a", strings.Repeat("y", 200000), "b"}, Line: 3, Col: 1},
 	}
+	// positions remapped by //line directives: a column-less directive yields Column == 0 ("unknown")
+	for _, remapLine := range []int{1, 2, 4} {
+		for _, col := range []int{0, 1, 3} {
+			content := "package x\nvar a = 1\nvar b = 2\nvar c = 3\nvar d = 4\n"
+			fset := token.NewFileSet()
+			f := fset.AddFile("/virtual/gen.go", -1, len(content))
+			f.SetLinesForContent([]byte(content))
+			f.AddLineColumnInfo(int(f.LineStart(3))-f.Base(), "/virtual/gen.go", remapLine, col)
+			pass := &analysis.Pass{Fset: fset}
+			pass.ReadFile = func(string) ([]byte, error) { return []byte(content), nil }
+			var got string
+			pass.Report = func(d analysis.Diagnostic) { got = d.Message }
+			func() {
+				defer func() {
+					if rec := recover(); rec != nil {
+						report(c19case{Lines: strings.Split(content, "\n"), Line: 3, Col: 5}, "render/panic/line-directive", fmt.Sprintf("Reporter panicked on a position remapped by a //line directive (line %d, column %d): %v", remapLine, col, rec))
+					}
+				}()
+				reporting.NewReporter(pass, nil).ReportViolation(fakeViolation{"IMM01", f.LineStart(3) + 4, "synthetic message"})
+			}()
+			cases++
+			flavours["line-directive"]++
+			if got != "" && !strings.HasPrefix(got, "error: [IMM01] synthetic message") {
+				report(c19case{Lines: strings.Split(content, "\n"), Line: 3, Col: 5}, "render/header", "header after //line remap: "+strconv.Quote(head(got, 80)))
+			}
+		}
+	}
 	for _, c := range deg {
 		if key, d := judge19(c, limit); key != "" {
 			report(c, key, d)
